@@ -64,6 +64,34 @@ def run(R):
     last_dmf = max(dmf_sites, key=lambda b: rpo_idx.get(b, -1)) if dmf_sites else None
     push_sites = sorted((bi for bi, c, a, d in body.call_sites(lambda c: c.name.endswith("::push") and "Vec" in c.name)), key=lambda b: rpo_idx.get(b, -1))
 
+    E.loop_depth(body)
+    loops = body._loop_bodies
+    outer = [h for h, bs in loops.items() if push_sites and push_sites[0] in bs]
+    outer_body = max((loops[h] for h in outer), key=len) if outer else set()
+    after_outer = max((rpo_idx.get(b, -1) for b in outer_body), default=-1)
+    last_loops = {h: bs for h, bs in loops.items() if rpo_idx.get(h, -1) > after_outer}
+    # the cursor variable: first argument of the last div_mod_floor call
+    cursor_local = None
+    if last_dmf is not None:
+        tk, tv = kind_of(body.blocks[last_dmf]["terminator"]["kind"])
+        ok_, ov = kind_of(tv["args"][0])
+        if ok_ in ("Copy", "Move"):
+            tmp = ov["local"]
+            for (bi_, si_, rv_, proj_) in body.defs().get(tmp, []):
+                rk, rvv = kind_of(rv_)
+                if rk == "Ref" and not rvv[2]["projection"]:
+                    cursor_local = rvv[2]["local"]
+    edges, push_cursor, exits = [], [], []
+
+    def cursor_bound(fr, stt):
+        if cursor_local is None:
+            return None
+        idx = stt.store.get((fr.id, cursor_local))
+        bl = [v for k_, v in stt.store.items() if k_[0] == fr.id and type(v) is Md and v.kind == "bitvec"]
+        if type(idx) is I and bl:
+            return stt.bound(idx.vid, bl[0].d["len"].vid)
+        return None
+
     def obs(ev, **kw):
         if ctx.quiet:
             return
@@ -71,6 +99,19 @@ def run(R):
         if fr is None or fr.inst is not dec:
             return
         stt = kw["st"]
+        if ev == "edge":
+            d = kw["discr"]
+            bitvals = {v.vid for k_, v in stt.store.items() if k_[0] == "h" and k_[1] == "bit" and type(v) is I}
+            if d.vid in bitvals:
+                for h, bs in loops.items():
+                    if kw["bb"] in bs and kw["target"] not in bs:
+                        exits.append((kw["bb"], cursor_bound(fr, stt)))
+            for h, bs in last_loops.items():
+                if kw["bb"] in bs and kw["target"] in bs and body.local_ty(cursor_local if cursor_local is not None else 0).tag == "Uint":
+                    edges.append((kw["bb"], kw["target"], cursor_bound(fr, stt)))
+            return
+        if ev == "enter" and kw["callee"].name.endswith("::push"):
+            push_cursor.append((kw["bb"], cursor_bound(fr, stt)))
         if ev == "enter" and kw["callee"].name.endswith("::push"):
             v = kw["args"][1]
             if type(v) is not I:
@@ -178,6 +219,21 @@ def run(R):
             f"the cursor after the last terminator may equal the buffer's bit length (bound {max([c for c in cursors if c is not None], default=None)}): exactly-full encodings are readable",
             f"the cursor after the last terminator is at most bitlen{min([c for c in cursors if c is not None], default='?')}: an encoding that fills the budget exactly (which compress emits) is rejected",
             key="cursor")
+    # (7b) in the last round's unary loop the cursor may advance up to the last bit of the buffer
+    inloop = [b for (_, _, b) in edges if b is not None]
+    R.check(inloop and max(inloop) >= -1, "C07-cursor", site + " (last coefficient's unary run)",
+            f"inside the loop the cursor can be as far as the last buffer bit (bound bitlen{max(inloop) if inloop else '?'})",
+            f"inside the last coefficient's unary loop the cursor is kept at most at bitlen{max(inloop) if inloop else '?'}: a terminator on the very last bit (an exactly-full "
+            "encoding, which compress emits) is rejected when the last coefficient has a non-empty unary part", key="cursor-loop")
+    # (8) every unary run ends on a terminator bit that was read inside the buffer
+    for bb in sorted({b for b, _ in exits}):
+        bs = [c for b, c in exits if b == bb]
+        ok = all(c is not None and c <= -1 for c in bs)
+        R.check(ok, "C07-terminator", f"{site} unary-run exit at {body.span_of(bb)}", "the run is left only on a terminator bit read strictly inside the buffer",
+                f"the unary run can be left with the cursor at bitlen+{max([c for c in bs if c is not None], default='?')}: a truncated encoding without terminator bit is accepted",
+                key=f"terminator|{sorted({b for b, _ in exits}).index(bb)}")
+    nloops_with_bits = len({b for b, _ in exits})
+    R.check(nloops_with_bits >= 2, "C07-terminator", site, f"{nloops_with_bits} unary-run loops exit on a bit test", f"only {nloops_with_bits} loop(s) exit on a bit that was read from the buffer (expected one per push site): a run may end without reading a terminator", key="terminator-count")
     # ---- compress_coefficient: layout per unary length
     cc = S.find("encoding::compress_coefficient")
     bad = []
